@@ -3037,7 +3037,8 @@ scan_raw(int c) {
     if (c == quote_mark) {
       // We encountered a quote mark - did the last part of the string end
       // with the given delimiter?  If so, we've reached the end.
-      if (str.compare(str.size() - delimiter.size(), delimiter.size(), delimiter) == 0) {
+      if (str.size() >= delimiter.size() &&
+          str.compare(str.size() - delimiter.size(), delimiter.size(), delimiter) == 0) {
         str.resize(str.size() - delimiter.size());
         break;
       }
